@@ -19,14 +19,6 @@ theorem ind_pos {p : Prop} : 0 < ind p ↔ p := by unfold ind; split <;> simp_al
 theorem ind_true {p : Prop} (h : p) : ind p = 1 := by simp [ind, h]
 theorem ind_false {p : Prop} (h : ¬ p) : ind p = 0 := by simp [ind, h]
 
-/-- occurrences of `z` in what one worker holds -/
-def wcount (z : Obj) (m : WState) : Nat := m.loc.count z + m.deq.count z + (held m.hand).count z
-
-def wsCount (ws : List WState) (z : Obj) : Nat := (ws.map (wcount z)).sum
-
-/-- occurrences of `z` in all pools (injector, local segments, deques, hands) -/
-def poolCount (s : State) (z : Obj) : Nat := s.inj.count z + wsCount s.ws z
-
 theorem wsCount_set {ws : List WState} {w : Nat} {me : WState} (hw : ws[w]? = some me) (me' : WState) (z : Obj) :
     wsCount (ws.set w me') z + wcount z me = wsCount ws z + wcount z me' := by
   induction ws generalizing w with
@@ -102,11 +94,6 @@ theorem takeAll?_append (xs l : List Obj) : takeAll? (xs ++ l) xs = some l := by
   induction xs with
   | nil => simp [takeAll?]
   | cons x xs ih => simp [takeAll?, ih]
-
-/-- reachable from the roots along reference fields without passing through a pre-marked object -/
-inductive Reachable (h : Heap) : Obj → Prop
-  | root {r : Obj} : r ∈ h.roots → r ∉ h.pre → Reachable h r
-  | succ {x y : Obj} : Reachable h x → y ∈ h.succ x → y ∉ h.pre → Reachable h y
 
 /-- `x` is processed and some worker is still to trace its field `y` -/
 def Pend (ws : List WState) (x y : Obj) : Prop :=
